@@ -56,6 +56,7 @@ def warmup():
 
 def gen_cases(seed, tier):
     from .. import c04_gen as G
+    G.configure(tier)
     rng = np.random.default_rng([seed, 4])
     n = 420 if tier == "quick" else 9000
     names = [k for k, _ in KINDS]
